@@ -78,6 +78,10 @@ package ch
 //@   requires c != nil && ctx != nil && wRI(c.writer)
 //@   modifies all(c.writer), all(ctx), all(c.conn)
 //@   ensures err == nil ==> len(c.writer.vec) == 0 && c.writer.bufOffset == 0 && len(c.writer.buf.Buf) == 0 {flushed-and-reset}
+//@ -- C04: whatever was staged is either written or dropped - a flush that fails (dead context, deadline
+//@ -- that cannot be set, write error) must not leave it behind: after a server exception the client
+//@ -- stays open and the next request would send it
+//@   ensures len(c.writer.vec) == 0 && c.writer.bufOffset == 0 && len(c.writer.buf.Buf) == 0 [C04] {staged-output-never-survives-a-flush}
 //@   ensures wRI(c.writer)
 
 //@ -- every packet read is bounded by min(now + read timeout, context deadline): whenever the context
@@ -210,6 +214,11 @@ package ch
 //@   ensures err == nil && len(q.Input) > 0 ==> c.blanks == old(c.blanks) + 1 {exactly-one-terminator-on-success}
 //@   ensures err != nil ==> c.blanks == old(c.blanks) {no-terminator-after-a-failure}
 //@   ensures wRI(c.writer)
+//@ -- the same statement without the ghost counter: the terminator-writing call is made exactly once
+//@ -- on every successful path with input, and never without input
+//@   ensures [internal] err == nil && len(q.Input) > 0 ==> calls("(*Client).encodeBlankBlock") == 1 {terminator-call-made-exactly-once-on-success}
+//@   ensures [internal] len(q.Input) == 0 ==> calls("(*Client).encodeBlankBlock") == 0 {no-terminator-call-without-input}
+//@   ensures [internal] calls("(*Client).encodeBlankBlock") <= 1 {never-two-terminators}
 //@ -- the caller's pre-filled input is the first block: the callback is asked for an initial block
 //@ -- only when there are no rows yet (otherwise it would overwrite rows that were never sent)
 //@ callsite value:f#1
@@ -284,6 +293,10 @@ package ch
 //@ -- wrapped it (errors.As walks the whole chain), C05
 //@ callsite errors.As
 //@   assert true [C03,C05] {corruption-error-is-looked-up-through-the-whole-error-chain}
+//@ -- every successfully decoded block other than the empty end marker - including a header block
+//@ -- with columns but no rows - reaches the handler, exactly once
+//@   ensures [internal] err == nil && !(block.Columns == 0 && block.Rows == 0) ==> calls("value:Handler") == 1 [C03] {every-block-but-the-end-marker-reaches-the-handler-exactly-once}
+//@   ensures [internal] calls("value:Handler") <= 1 [C03] {at-most-one-handler-call-per-block}
 //@ callsite value:Handler
 //@   assert !(block.Columns == 0 && block.Rows == 0) [C03] {handler-only-for-a-non-empty-block}
 //@   assert 0 <= block.Rows && block.Rows <= 100000000 [C03,C06] {handler-sees-a-validated-row-count}
